@@ -339,6 +339,11 @@ func TestC14(t *testing.T) {
 	for r := rune(0); r < 0x80; r++ {
 		scalars = append(scalars, r)
 	}
+	// Unicode white space (what unicode.IsSpace accepts beyond ASCII): text, and
+	// a classic way to split a line in the wrong place
+	for _, r := range []rune{0x85, 0xa0, 0x1680, 0x2000, 0x2001, 0x2002, 0x2003, 0x2004, 0x2005, 0x2006, 0x2007, 0x2008, 0x2009, 0x200a, 0x2028, 0x2029, 0x202f, 0x205f, 0x3000, 0xfeff, 0x200b} {
+		scalars = append(scalars, r)
+	}
 	for _, r := range []rune{0x80, 0x9f, 0xa0, 0xe9, 0xff, 0x100, 0x7ff, 0x800, 0xfff, 0x1000, 0x20ac, 0xd7ff, 0xe000, 0xfffd, 0xffff, 0x10000, 0x1f600, 0xfffff, 0x100000, 0x10ffff} {
 		scalars = append(scalars, r)
 	}
